@@ -206,6 +206,8 @@ static std::vector<CN> CM;      // constraints
 static std::vector<GN> GM;      // generators (dimension-2 vectors; truncated for lower dims)
 static std::vector<LE> EM;      // expressions
 
+static int MAXDIM = 2;
+static size_t CM3 = 0, GM3 = 0;   // first index of the dimension-3 entries (when MAXDIM >= 3)
 static void build_menus() {
   using ref::EQ; using ref::GE; using ref::GT;
   CM = {
@@ -228,6 +230,22 @@ static void build_menus() {
     LE({1, 0}, 0), LE({0, 1}, 0), LE({-1, 0}, 0), LE({2, 0}, 0), LE({1, 0}, 1), LE({0, 1}, 2), LE({1, 1}, 0),
     LE({1, -1}, 0), LE({2, -1}, 1), LE({0, -2}, 0), LE({0, 0}, 0), LE({0, 0}, 3),
   };
+  CM3 = CM.size(); GM3 = GM.size();
+  if (MAXDIM >= 3) {
+    // dimension-3 entries (appended: the indices of the entries above are used by the systems below)
+    std::vector<CN> c3 = {
+      CN(LE({0, 0, 1}, 0), GE), CN(LE({0, 0, -1}, 2), GE), CN(LE({-1, -1, -1}, 2), GE), CN(LE({0, 0, 1}, -1), EQ),
+      CN(LE({1, 0, -1}, 0), GE), CN(LE({1, 1, -1}, 0), EQ), CN(LE({0, -1, 1}, 1), GE), CN(LE({0, 0, 1}, 0), GT), CN(LE({-1, -1, -1}, 3), GT),
+    };
+    CM.insert(CM.end(), c3.begin(), c3.end());
+    std::vector<GN> g3 = {
+      GN('p', {0, 0, 2}), GN('p', {1, 1, 1}), GN('p', {2, 2, 2}), GN('p', {0, 1, 1}, 2),
+      GN('r', {0, 0, 1}), GN('r', {0, 1, -1}), GN('l', {0, 0, 1}), GN('l', {1, 0, 1}), GN('c', {0, 0, 2}),
+    };
+    GM.insert(GM.end(), g3.begin(), g3.end());
+    std::vector<LE> e3 = { LE({0, 0, 1}, 0), LE({1, 0, 1}, 0), LE({1, -1, 2}, 1), LE({0, 0, -1}, 0) };
+    EM.insert(EM.end(), e3.begin(), e3.end());
+  }
 }
 
 static CN trunc(const CN& c, int dim) { CN o = c; o.e.a.resize(dim); return o; }
@@ -296,18 +314,32 @@ static void build_ops() {
   }
   // ---- builders: add_constraints / add_generators (pairs; the "recycled, pending" path)
   {
-    int pairs[][2] = {{0, 4}, {8, 1}, {5, 21}, {13, 3}};
+    std::vector<std::vector<int> > pairs = {{0, 4}, {8, 1}, {5, 21}, {13, 3}};
+    if (MAXDIM >= 3) {
+      int c = (int)CM3;
+      // orthant, upper box faces, slab + simplex face, strict corner, plane + half-space
+      pairs.push_back({0, 1, c + 0}); pairs.push_back({2, 3, c + 1}); pairs.push_back({c + 0, c + 1, c + 2});
+      pairs.push_back({13, c + 7, c + 8}); pairs.push_back({c + 5, c + 4});
+    }
     for (auto& pr : pairs) {
-      CN a = CM[pr[0]], b = CM[pr[1]];
-      Op o; o.name = "add_constraints({" + a.str() + "," + b.str() + "})"; o.builder = true;
-      o.ok = [a, b](const Ctx& x) { return fits(a.e, x.dim) && fits(b.e, x.dim) && (x.nnc || (a.k != ref::GT && b.k != ref::GT)); };
-      o.apply = [a, b](Polyhedron& p, const Polyhedron*) { PPL::Constraint_System cs; cs.insert(a.ppl()); cs.insert(b.ppl()); p.add_constraints(cs); return std::string(); };
-      o.refv = [a, b](const Cell& v, const Cell*, bool) { if (v.bot) return v; Cell r = v; r.rows.push_back(a.row(v.n)); r.rows.push_back(b.row(v.n)); return r; };
+      std::vector<CN> cl; for (int i : pr) cl.push_back(CM[i]);
+      std::string nm = "add_constraints({";
+      for (size_t i = 0; i < cl.size(); ++i) { if (i) nm += ","; nm += cl[i].str(); }
+      Op o; o.name = nm + "})"; o.builder = true;
+      o.ok = [cl](const Ctx& x) { for (const CN& c : cl) if (!fits(c.e, x.dim) || (!x.nnc && c.k == ref::GT)) return false; return true; };
+      o.apply = [cl](Polyhedron& p, const Polyhedron*) { PPL::Constraint_System cs; for (const CN& c : cl) cs.insert(c.ppl()); p.add_constraints(cs); return std::string(); };
+      o.refv = [cl](const Cell& v, const Cell*, bool) { if (v.bot) return v; Cell r = v; for (const CN& c : cl) r.rows.push_back(c.row(v.n)); return r; };
       add_op(o);
     }
     // systems of 2 and 3 generators; the triples complete a universe / half-plane out of lines and rays
     // that are all pending at once (fast paths that count pending lines and rays: is_universe, is_bounded)
     std::vector<std::vector<int> > gp = {{1, 7}, {3, 11}, {13, 5}, {11, 8, 16}, {12, 9, 10}, {7, 10, 8}, {0, 11, 8}};
+    if (MAXDIM >= 3) {
+      int g = (int)GM3;
+      // triangle in the plane C = 0, the edge above it, a prism direction, a wedge with lineality
+      gp.push_back({0, 1, 2}); gp.push_back({g + 0, g + 2}); gp.push_back({5, g + 4, g + 5}); gp.push_back({0, g + 4, g + 7});
+      gp.push_back({g + 8, g + 1, 7});
+    }
     for (auto& pr : gp) {
       std::vector<GN> gl; for (int i : pr) gl.push_back(GM[i]);
       std::string nm = "add_generators({";
@@ -706,9 +738,9 @@ static void check_value(Polyhedron& r, int want, const std::string& site, const 
   if (!okk) { if (violcap().admit(site + "|OK2")) report_violation(site, "invariant:OK()-after-observation", "none", input_json, "OK() false", "OK() true"); }
 }
 
-static void phase_a(int depth_max, int max_dim) {
+static void phase_a(int depth_max, int min_dim, int max_dim) {
   // initial states
-  for (int nnc = 0; nnc < 2; ++nnc) for (int dim = 0; dim <= max_dim; ++dim) for (int e = 0; e < 2; ++e) {
+  for (int nnc = 0; nnc < 2; ++nnc) for (int dim = min_dim; dim <= max_dim; ++dim) for (int e = 0; e < 2; ++e) {
     Polyhedron* p = fresh(nnc, dim, e);
     int cls = CL.classify(e ? Cell::empty(dim) : Cell::universe(dim));
     add_state(p, nnc, dim, cls, -1, -1, 0);
@@ -1351,6 +1383,8 @@ int main(int argc, char** argv) {
   if (!ARGS.replay.empty()) { MODE = "C02"; return replay_main(); }
   int depth = atoi(ARGS.opt("--depth", ARGS.thorough() ? "4" : "3").c_str());
   int max_dim = atoi(ARGS.opt("--maxdim", "2").c_str());
+  int min_dim = atoi(ARGS.opt("--mindim", "0").c_str());
+  MAXDIM = max_dim;
   int pool_classes = atoi(ARGS.opt("--pool", ARGS.thorough() ? "60" : "36").c_str());
   int pool_sigs = atoi(ARGS.opt("--poolsigs", ARGS.thorough() ? "3" : "2").c_str());
   bool all_states = ARGS.has("--all-states");
@@ -1358,7 +1392,7 @@ int main(int argc, char** argv) {
   build_ops();
   if (MODE == "C01") build_queries();
   double t0 = now_s();
-  phase_a(depth, max_dim);
+  phase_a(depth, min_dim, max_dim);
   double ta = now_s() - t0;
   choose_reps(all_states, pool_classes, pool_sigs);
   fprintf(stderr, "[poly %s] phase A: depth=%d states=%zu transitions=%lld classes=%zu signatures=%zu reps=%zu pool=%zu in %.1fs\n",
@@ -1402,7 +1436,7 @@ int main(int argc, char** argv) {
     .num("oracle_comparisons", counter(CNT_CHECKS)).num("items_skipped_by_deadline", counter(CNT_SKIPPED)).num("cases_skipped_oracle_resource_limit", counter(CNT_REFCRASH)).arr("signatures_reached", sigs);
   J st; st.str("t", "stats").num("states", ST.size()).num("transitions", TRANS_A + counter(CNT_TRANS))
     .num("traces_validated_against_impl", TRANS_A + counter(CNT_TRANS)).boolean("exhaustive", complete)
-    .str("bound", "phase A depth " + std::to_string(depth) + ", dim<=" + std::to_string(max_dim) + (all_states ? ", all states" : ", one representative per (value class, signature)"))
+    .str("bound", "phase A depth " + std::to_string(depth) + ", " + std::to_string(min_dim) + "<=dim<=" + std::to_string(max_dim) + (all_states ? ", all states" : ", one representative per (value class, signature)"))
     .arr("samples", samples).raw("extra", extra.done()).dbl("wall_s", now_s() - t0);
   sink().line(st.done());
   return 0;
